@@ -175,20 +175,40 @@ std::vector<m6::Seg> expectedSegs(const std::string& raw, const std::map<std::st
   return segs;
 }
 
-Verdict schemaProp(Ctx& c) {
+Verdict schemaRename(Ctx& c, bool richRefs) {
   sh::GenOpts o; o.maxOps = 8;
   const uint64_t idSeed = static_cast<uint64_t>(c.pick(1, 1000000));
   const auto ops = sh::genHistory(c, o);
   const int mode = c.ipick(0, 3);  // 0-2 rename one constituent, 3 ResetAliases
   const int target = c.ipick(0, 11), newIndex = c.ipick(5, 40);
   for (size_t i = 0; i < ops.size(); ++i) c.show << (i ? "; " : "") << sh::showOp(ops[i]);
+  // rich reference texts (sub-property reference_rename): references whose tag part holds multi-byte characters (a tag
+  // typed in the wrong keyboard layout, a no-break space after the comma - unknown tags are skipped by the library as long
+  // as one valid tag remains), several references per text, multi-byte text around them, names that are prefixes of others
+  struct RichEdit { int target; bool term; std::string text; };
+  std::vector<RichEdit> rich;
+  if (richRefs) {
+    static const std::vector<std::string> names = {"X1", "X2", "D1", "D2", "X11", "S1", "C1"};
+    static const std::vector<std::string> tags = {"nomn,sing", "datv,plur", "nomn,\xD0\xBC\xD0\xBD", "nomn,\xC2\xA0sing", "\xD0\xBC\xD0\xBD,gent", "sing,nomn", "ablt", "nomn,sing,\xE2\x84\xAC", "NOMN,sing"};
+    static const std::vector<std::string> glue = {"", " ", "\xD0\x9F\xD1\x83\xD1\x81\xD1\x82\xD1\x8C ", " \xE2\x80\x94 ", "\xE2\x84\xAC(", ") and ", "\xF0\x9F\x98\x80", "@", " @{-1|big} "};
+    const int k = c.ipick(1, 4);
+    for (int i = 0; i < k; ++i) {
+      RichEdit e; e.target = c.ipick(0, 11); e.term = c.coin();
+      const int refs = c.ipick(1, 3);
+      e.text = c.oneof(glue);
+      for (int j = 0; j < refs; ++j) e.text += "@{" + c.oneof(names) + "|" + c.oneof(tags) + "}" + c.oneof(glue);
+      rich.push_back(e);
+    }
+  }
   c.show << (mode == 3 ? " THEN ResetAliases" : " THEN rename #" + std::to_string(target) + " to index " + std::to_string(newIndex));
+  for (const auto& e : rich) c.show << " [rich " << (e.term ? "term" : "text") << " #" << e.target << " '" << e.text << "']";
   c.exec();
   sh::Executor ex(idSeed);
   for (const auto& op : ops) (void)ex.apply(op);
   auto& f = ex.form;
   const auto l = ex.list();
   if (l.empty()) return pbt::discard("empty-schema");
+  for (const auto& e : rich) { const auto uid = l[static_cast<size_t>(e.target) % l.size()]; if (e.term) (void)f.SetTermFor(uid, e.text); else (void)f.SetDefinitionFor(uid, e.text); }
   const auto before = snapshot(f);
   std::map<std::string, std::string> ren;
   if (mode == 3) {
@@ -207,7 +227,7 @@ Verdict schemaProp(Ctx& c) {
   }
   const auto after = snapshot(f);
   // (1) all and only the mentions are rewritten
-  int rewritten = 0; bool multibyteBefore = false, refUnspecified = false;
+  int rewritten = 0; bool multibyteBefore = false, refUnspecified = false, refMultibyte = false;
   for (auto uid : l) {
     const auto& b = before.at(uid); const auto& a = after.at(uid);
     auto it = ren.find(b.alias);
@@ -222,6 +242,7 @@ Verdict schemaProp(Ctx& c) {
     for (const auto* pr : {&b.term, &b.text}) {
       const std::string& got = pr == &b.term ? a.term : a.text;
       const auto d = m6::matchSegs(got, expectedSegs(*pr, ren, &refUnspecified));
+      if (richRefs && *pr != got) { bool mb = false; for (size_t i = pr->find("@{"); i != std::string::npos && i < pr->size() && (*pr)[i] != '}'; ++i) if (static_cast<unsigned char>((*pr)[i]) >= 0x80) mb = true; if (mb) refMultibyte = true; }
       if (!refUnspecified) CHECK(d.empty(), "reference-rewrite", std::string(pr == &b.term ? "term" : "text definition") + " of " + b.alias + " '" + *pr + "' became '" + got + "': " + d);
     }
   }
@@ -239,12 +260,17 @@ Verdict schemaProp(Ctx& c) {
       CHECK(a.type == wantType, "typification-changed", "typification of " + a.alias + " is " + a.type + ", expected " + wantType + " (was " + b.type + ")");
     }
   }
-  c.nontrivial = rewritten >= 1 && precondition;
+  c.nontrivial = richRefs ? refMultibyte : (rewritten >= 1 && precondition);
+  if (refMultibyte) c.label("rewritten-reference-text-with-multibyte-inside-a-reference");
+  if (refUnspecified) c.label("reference-rewrite-unspecified(nested or malformed marker)");
   c.label(mode == 3 ? "reset-aliases" : "set-alias");
   c.label("rewritten:" + std::to_string(std::min(rewritten, 4)));
   if (multibyteBefore) c.label("multibyte-in-rewritten-definition");
   return pbt::pass();
 }
+
+Verdict schemaProp(Ctx& c) { return schemaRename(c, false); }
+Verdict referenceRenameProp(Ctx& c) { return schemaRename(c, true); }
 
 // ---- every identifier translation leaves the schema consistent with a rebuild from its own content -------------------
 // Renaming with substitution, alias reset, duplicate elimination and merging all translate identifiers in formal and
@@ -308,6 +334,7 @@ int main(int argc, char** argv) {
   std::vector<pbt::Prop> props;
   props.push_back({"translate_strings", stringProp, 8000, 120000, false, false, "TranslateRS / SubstituteGlobals on texts with identifier spans known by construction"});
   props.push_back({"schema_rename", schemaProp, 1500, 25000, false, false, "SetAliasFor with substitution / ResetAliases on schemas reached by histories"});
+  props.push_back({"reference_rename", referenceRenameProp, 1500, 20000, false, false, "the same renamings over schemas whose terms / text definitions hold references with multi-byte characters inside the braces, several references per text and multi-byte text around them"});
   props.push_back({"translation_consistency", translationProp, 1000, 20000, false, false, "rename / reset / delete duplicates / merge, then a text edit: schema vs a rebuild from its own records"});
   return pbt::main(argc, argv, "C08", props);
 }
